@@ -709,6 +709,18 @@ theorem sweepResult_ok {limit : Nat} {s s' : State} {t : Nat} (h : expiredGone t
     sweepResult limit s t s' = .ok := by
   simp [sweepResult, h]
 
+/-- The checker's clause on `MsgDeleteName` (`namePurged`): after an accepted name deletion no
+attribute is left under the name; every other message satisfies the clause trivially. -/
+theorem name_deletion_leaves_no_attribute {s s' : State} {op : Op} (hi : Inv s) (h : step s op = .ok s') :
+    namePurged op s' = true := by
+  cases op with
+  | deleteName sg name =>
+    obtain ⟨_, _, h3⟩ := deleteName_purges_exactly hi h
+    simp only [namePurged, List.all_eq_true, decide_eq_true_eq]
+    intro r hr
+    exact ((h3 r).mp hr).2
+  | _ => rfl
+
 /-- On every transition of the model from a reachable state the checker that `bin/check` runs
 on the implementation's dumps answers `ok` — for a block that begins with more than 100 000
 expired attributes see `verdict_above_cap`. -/
@@ -725,8 +737,9 @@ theorem verdict_ok {s s' : State} {op : Op} (hi : Inv s) (h : step s op = .ok s'
     unfold disappearancesJustified at h4
     simp only [List.all_eq_true] at h4
     simp [h4 r hr]
+  have h6 := name_deletion_leaves_no_attribute hi h
   unfold verdict verdictCap
-  simp only [h1, h2, h3, h5, Bool.not_true, Bool.false_eq_true, if_false]
+  simp only [h1, h2, h3, h5, h6, Bool.not_true, Bool.false_eq_true, if_false]
   cases op with
   | beginBlock t =>
     simp only [sweepResult_ok (expired_gone_after_begin_partial_inv hi h (hcap t rfl))]
@@ -753,8 +766,9 @@ theorem verdict_above_cap {s s' : State} {t : Nat} (hi : Inv s) (h : step s (.be
   have hle : expiredCount s' t + maxExpiredAttributionCount ≤ expiredCount s t := by omega
   have hr : sweepResult maxExpiredAttributionCount s t s' = .capped := by
     simp [sweepResult, hg, hne, hcap, hle]
+  have h6 : namePurged (.beginBlock t) s' = true := rfl
   unfold verdict verdictCap
-  simp only [h1, h2, h3, h5, Bool.not_true, Bool.false_eq_true, if_false, hr]
+  simp only [h1, h2, h3, h5, h6, Bool.not_true, Bool.false_eq_true, if_false, hr]
 
 /-- BEFORE commit f2249cacd: on the re-add witness the checker named the narrow clause that
 was recorded (now `fixed`) in `known_findings.json`. -/
@@ -981,6 +995,12 @@ theorem verdict_ok_spelled {s s' : State} {x : SOp} (hi : Inv s) (h : stepS s x 
     verdict s x.op true s' = "ok" :=
   verdict_ok hi (stepS_refines h) hcap
 
+/-- After every history, an accepted `MsgDeleteName` (whatever the spelling of its name) leaves no
+attribute under the normalised name. -/
+theorem name_deletion_leaves_no_attribute_spelled (s0 : State) (h0 : Init s0) (xs : List SOp) {x : SOp}
+    {s' : State} (h : stepS (runS s0 xs) x = .ok s') : namePurged x.op s' = true :=
+  name_deletion_leaves_no_attribute (invariants_hold_spelled s0 h0 xs) (stepS_refines h)
+
 /-- A transaction of add messages (op line `bulk`: one signer, one spelling of the name, many
 values) that the model accepts is a chain of accepted adds … -/
 theorem stepAll_adds {sp : Spelling} {sg : String} : ∀ {attrs : List Attribute} {s s' : State},
@@ -1052,6 +1072,37 @@ theorem spelling_witnesses :
     refusal (stepS s ⟨inner, .update "A" "B" "kyc.vf" "1" .string "2" .string⟩) = some .notfound ∧
     refusal (stepS s ⟨mixed, .transfer "A" "kyc.vf" "C"⟩) = some .notfound ∧
     verdict s (.delete "C" "B" "kyc.vf") true { s with recs := [], cnt := [] } = "fail:write_by_non_owner" := by
+  decide
+
+/-! ## Values with surrounding white space; attributes left under a deleted name -/
+
+/-- `types.NewAttribute` trims once: building the attribute again changes nothing. -/
+theorem newAttribute_keeps_verbatim_types (a : Attribute) (h : a.ty = .bytes ∨ a.ty = .proto) :
+    newAttribute a = a := by
+  unfold newAttribute
+  rcases h with h | h <;> simp [h]
+
+/-- Values at work: `"1 "` stored as `bytes` (verbatim) and `"1"` stored from a `string` message
+`" 1 "` (trimmed by `NewAttribute`) are two attributes of one (account, name).  Deleting by the value
+`"1 "` removes exactly the first, deleting by `"1"` exactly the second, deleting by `" 1"` finds
+nothing; an update may store a padded `string` value verbatim; an `int` is judged on the trimmed
+value.  On the checker: an implementation that answers the deletion by `"1 "` by removing `"1"`, or
+whose name deletion leaves an attribute under the name, is reported. -/
+theorem value_white_space_witnesses :
+    let s0 : State := { now := 100, accts := ["A", "C"], names := [("kyc.vf", "A")] }
+    let padded : Attribute := ⟨"B", "kyc.vf", "1 ", .bytes, none⟩
+    let plain : Attribute := ⟨"B", "kyc.vf", "1", .string, none⟩
+    let s := run s0 [.add "A" (newAttribute padded), .add "A" (newAttribute ⟨"B", "kyc.vf", " 1 ", .string, none⟩)]
+    s.recs = [plain, padded] ∧
+    (run s [.deleteDistinct "A" "B" "kyc.vf" "1 "]).recs = [plain] ∧
+    (run s [.deleteDistinct "A" "B" "kyc.vf" "1"]).recs = [padded] ∧
+    refusal (step s (.deleteDistinct "A" "B" "kyc.vf" " 1")) = some .notfound ∧
+    (run s [.update "A" "B" "kyc.vf" "1" .string "x " .string]).recs = [⟨"B", "kyc.vf", "x ", .string, none⟩, padded] ∧
+    refusal (step s (.update "A" "B" "kyc.vf" "1" .string " 7 " .int)) = none ∧
+    refusal (step s (.update "A" "B" "kyc.vf" "1" .string " x " .int)) = some .invalid ∧
+    verdict s (.deleteDistinct "A" "B" "kyc.vf" "1 ") true { s with recs := [padded] } =
+      "fail:disappears:not_deleted_by_owner" ∧
+    verdict s (.deleteName "A" "kyc.vf") true { s with names := [] } = "fail:name_deleted_attributes_remain" := by
   decide
 
 /-! ## Non-vacuity -/
